@@ -184,10 +184,10 @@ class Arr:
 
 class Cell:
     """finite candidate set, refined along the path"""
-    __slots__ = ('cands', 'label', 'names')
+    __slots__ = ('cands', 'label', 'names', 'refined_at')
 
     def __init__(self, cands, label, names=None):
-        self.cands = list(cands); self.label = label; self.names = names
+        self.cands = list(cands); self.label = label; self.names = names; self.refined_at = 0
 
     def show(self, c):
         if self.names and c in self.names:
@@ -588,12 +588,19 @@ class Interp:
         key = (s.id, ctx.depth)
         opaque_iters = 0
         iters = 0
+        iter_start = len(ctx.trail)
         while True:
             if cond is not None:
                 before = ctx.di
                 need_before = len(ctx.trail)
-                c = self.truth(self.eval(cond, env), cond)
+                cv = self.eval(cond, env)
+                c = self.truth(cv, cond)
                 decided_by_choice = (ctx.di != before) or (len(ctx.trail) != need_before)
+                # the condition is a cell the loop body itself decided (e.g. `!n->next` inside, `n = n->next; n` here):
+                # still a generic iteration, not a concrete one
+                if not decided_by_choice and isinstance(cv, View) and getattr(cv.cell, 'refined_at', 0) > iter_start:
+                    decided_by_choice = True
+                iter_start = len(ctx.trail)
                 if not c:
                     ctx.emit('loop_done', s.line, iters)
                     break
@@ -744,6 +751,7 @@ class Interp:
             raise Infeasible('empty cell')
         if len(cands) != len(cell.cands):
             cell.cands = list(cands)
+            cell.refined_at = len(self.ctx.trail) + 1
             self.ctx.note('%s in {%s}' % (cell.label, ','.join(cell.show(c) for c in cands[:6]) + ('..' if len(cands) > 6 else '')))
 
     def settle(self, v):
